@@ -45,6 +45,7 @@ def run(ctx, res):
     Mx = bv.M
     seen = {"er2": 0, "stack": 0, "argptr": 0, "argbyte": 0, "argnul": 0, "exit": 0, "image-end": 0}
     image_end_var = None
+    image_loops = set()
     EH = "elf::header::ElfHeader32"
     tables_ok = set()
     res.ob(L.ehdr is not None)
@@ -109,6 +110,7 @@ def run(ctx, res):
                         if okv != 0:
                             res.finding("image-end|value", "for a PT_LOAD header the image end does not become p_paddr + p_memsz (or the maximum so far)", witness(okv))
                         image_end_var = nm
+                        image_loops.add(heads[-1][1])
                         if L.ehdr is not None and ("pht", repr(e[1])) not in tables_ok:
                             tables_ok.add(("pht", repr(e[1])))
                             loadermod.check_table(res, e[1], "parse_program_header32", bv.zext(get(facts, EH, L.ehdr, "phnum").bits, 64), bv.zext(get(facts, EH, L.ehdr, "phoff").bits, 64),
@@ -341,6 +343,28 @@ def run(ctx, res):
                 res.ob(okk)
                 if not okk:
                     res.finding("exit|string-table", "symbol names are not resolved through the string table selected by sh_link", witness(care))
+    # elements dropped by an iterator filter must not be ones the property needs
+    for pc_, elem, h_ in loadermod.filtered_out(outs):
+        care_ = Mx.AND(pc_, strmodel.exclusivity())
+        if isinstance(elem, Agg) and len(elem.fields) == len(fields_of(facts, PH)) and isinstance(elem.fields[0], SymEnum):
+            if h_ in image_loops:
+                bad = Mx.AND(care_, bv.eq(get(facts, PH, elem, "ty").bits, bv.const(1, 64)))
+                res.ob(bad == 0)
+                if bad != 0:
+                    res.finding("image-end|load-header-skipped", "a PT_LOAD program header is filtered out before the image extent is computed", witness(bad))
+        elif isinstance(elem, Agg) and len(elem.fields) == 2 and isinstance(elem.fields[0], Opaque) and elem.fields[0].tag == "str":
+            second = elem.fields[1]
+            nm = elem.fields[0].data
+            if isinstance(second, Agg) and len(second.fields) == len(fields_of(facts, SYM)):
+                bad = Mx.AND(care_, strmodel.eq_var(nm, "___exit"))
+                res.ob(bad == 0)
+                if bad != 0:
+                    res.finding("exit|symbol-skipped", "a symbol named ___exit can be filtered out before the exit address is set", witness(bad))
+            else:
+                bad = Mx.AND(care_, Mx.OR(strmodel.eq_var(nm, ".stack"), strmodel.eq_var(nm, ".symtab")))
+                res.ob(bad == 0)
+                if bad != 0:
+                    res.finding("sections|skipped", "a section named .stack or .symtab can be filtered out before it is processed", witness(bad))
     for k, v in seen.items():
         res.ob(bool(v))
         if not v:
